@@ -193,6 +193,30 @@ def check_pct(rows):
   return n, bad
 
 
+def check_pct_inexact():
+  """bounds that are not exactly representable: the declared limits are the
+  validator's own minimum / maximum (what it prints); both are inclusive, their
+  outward float neighbours are outside; huge ints are outside, not an error"""
+  from openhtf.util import validators as V
+  bad = []
+  n = 0
+  for e, p in ((3.3, 10), (1.1, 2), (0.1, 5), (-3.3, 10), (2.2, 7), (1e-3, 3), (123.456, 0.1), (100, 200), (7, 33)):
+    v = V.WithinPercent(e, p)
+    for vn, vv in (('plain', v), ('deepcopy', copy.deepcopy(v))):
+      lo, hi = vv.minimum, vv.maximum
+      probes = [(lo, True), (hi, True), (math.nextafter(lo, -INF), False), (math.nextafter(hi, INF), False),
+                (math.nextafter(lo, INF), True), (math.nextafter(hi, -INF), True), (e, True),
+                (10 ** 400, False), (-10 ** 400, False), (INF, False), (-INF, False)]
+      for x, want in probes:
+        n += 1
+        st, got = _try(lambda: vv(x))
+        if st != 'ok' or bool(got) != want:
+          bad.append(('within_percent %s value at / next to its own declared bound%s' % (
+              'rejects an inside' if want else 'accepts an outside', ' (raises)' if st != 'ok' else ''),
+                      dict(expected=e, percent=p, probe=repr(x), variant=vn, got=got)))
+  return n, bad
+
+
 def check_str(tab, pivots, eqrows):
   import re
   from openhtf.util import validators as V
@@ -272,6 +296,8 @@ def _work(args):
     return check_range(rows, extra, True)
   if kind == 'pct':
     return check_pct(rows)
+  if kind == 'pct-inexact':
+    return check_pct_inexact()
   return check_str(*rows)
 
 
@@ -299,6 +325,7 @@ def main(chk):
   for i in range(0, len(pct), 30):
     jobs.append(('pct', pct[i:i + 30], None))
   jobs.append(('str', (strt, piv, eqr), None))
+  jobs.append(('pct-inexact', None, None))
   with mp.Pool(14) as pool:
     outs = pool.map(_work, jobs)
   for (kind, rows, _), (n, bad) in zip(jobs, outs):
